@@ -169,7 +169,7 @@ class C19(Prop):
                   'alive at its end and not ignored - including when an earlier leak is released in a test that leaks.')
     level_note = ('The schedule is owned by the world (deterministic liveness at test boundaries); true races inside '
                   'threadsupport.enumerate() are not explored; only Python 3.12 thread repr formats are parsed.')
-    rule = ('Hypothesis histories: 1..6 tests, 0..3 thread starts per test (API, name, hold/join, phase), releases of '
+    rule = ('Hypothesis histories: 1..6 tests, 0..3 thread starts per test (API, name, hold/join, phase; raw threads with or without a threading._DummyThread entry), releases of '
             'earlier leaks at the beginning or end of later tests, 8 ignore-pattern sets. Non-trivial = a leak from an '
             'earlier test is released in a test that itself leaks. Distinct by hash of the case.')
     assumptions = ('a thread counts as ended once it left sys._current_frames() and (for Thread objects) was joined',)
